@@ -1,5 +1,6 @@
 import PygVerif.Props.C07
 import PygVerif.Props.C01
+import PygVerif.Model.Site
 /-!
 # C12 — One unservable entry never takes down its directory
 
@@ -107,5 +108,67 @@ theorem insecure_name_is_fault (base name bad : Str) (hb : bad ∈ Generated.for
 /-! non-vacuity -/
 example : Unservable { name := lit "dangling", isDir := false, entry := none, stripped := lit "dangling",
                        cap := none, lines := none } := ⟨rfl, rfl⟩
+
+/-! ### the same in the whole-site model (Model/Site): from the file tree to the listing -/
+
+theorem dispatch_notFound_of_fault (c : SiteCfg) (hurl : c.url = false) (st : StatFn) (sel : Str)
+    (hfault : (match st sel with | some (.file _) => false | some (.dir _) => false | _ => true) = true
+              ∨ secureB c.forbidden sel = false) :
+    dispatch c st sel = .notFound := by
+  unfold dispatch
+  simp only [hurl, Bool.false_and, Bool.false_eq_true, if_false]
+  rcases hfault with h | h
+  · by_cases hs : secureB c.forbidden sel = true
+    · simp only [hs, Bool.not_true, Bool.false_eq_true, if_false]
+      cases hst : st sel with
+      | none => rfl
+      | some n => cases n <;> simp_all
+    · simp [hs]
+  · simp [h]
+
+/-- **In the site model the fault kinds are unservable members.**  A member that is not there for `stat` (a dangling
+    link, an entry deleted after enumeration) or is neither file nor directory (a socket, a FIFO), or whose selector
+    the filter rejects, gets no entry; and unless it is a regular file its contents are never read. -/
+theorem site_fault_is_unservable (c : SiteCfg) (hurl : c.url = false) (st : StatFn) (base name : Str) (k : Node)
+    (hk : ∀ d, k ≠ .file d)
+    (hfault : (match st (base ++ [47] ++ name) with | some (.file _) => false | some (.dir _) => false | _ => true) = true
+              ∨ secureB c.forbidden (base ++ [47] ++ name) = false) :
+    Unservable (childOf c st base name k) := by
+  have hd := dispatch_notFound_of_fault c hurl st (base ++ [47] ++ name) hfault
+  refine ⟨by simp only [childOf, hd], ?_⟩
+  cases k with
+  | file d => exact absurd rfl (hk d)
+  | dir _ => rfl
+  | other => rfl
+
+/-- **One such member, anywhere in the directory, changes nothing in its listing** (site model, both handlers):
+    the listing of a directory that holds it is the listing computed from the other members alone. -/
+theorem site_listing_without_faulty_member (c : SiteCfg) (hurl : c.url = false) (st : StatFn) (sel : Str)
+    (a b : List (Str × Node)) (n : Str) (k : Node) (hd : dispatch c st sel = .dir)
+    (hkids : kidsAt st sel = some (a ++ (n, k) :: b))
+    (hnames : ∀ x ∈ a ++ (n, k) :: b, ∀ y ∈ a ++ (n, k) :: b, x.1 = y.1 → x = y)
+    (hk : ∀ d, k ≠ .file d)
+    (hfault : (match st ((if sel = [47] then [] else sel) ++ [47] ++ n) with
+               | some (.file _) => false | some (.dir _) => false | _ => true) = true
+              ∨ secureB c.forbidden ((if sel = [47] then [] else sel) ++ [47] ++ n) = false) :
+    siteEntries c st sel =
+      dirListing c.dir sel ((a ++ b).map fun (m, j) => childOf c st (if sel = [47] then [] else sel) m j) := by
+  simp only [siteEntries, hd, hkids, Option.bind_some, List.map_append, List.map_cons]
+  apply fault_position_irrelevant
+  · exact site_fault_is_unservable c hurl st _ n k hk hfault
+  · intro x hx y hy hxy
+    have back : ∀ z, z ∈ List.map (fun x : Str × Node => childOf c st (if sel = [47] then [] else sel) x.1 x.2) a ++
+        childOf c st (if sel = [47] then [] else sel) n k ::
+          List.map (fun x : Str × Node => childOf c st (if sel = [47] then [] else sel) x.1 x.2) b →
+        ∃ p ∈ a ++ (n, k) :: b, childOf c st (if sel = [47] then [] else sel) p.1 p.2 = z := by
+      intro z hz
+      have : z ∈ List.map (fun x : Str × Node => childOf c st (if sel = [47] then [] else sel) x.1 x.2) (a ++ (n, k) :: b) := by
+        simpa [List.map_append] using hz
+      exact List.mem_map.mp this
+    obtain ⟨⟨m1, j1⟩, h1, rfl⟩ := back x hx
+    obtain ⟨⟨m2, j2⟩, h2, rfl⟩ := back y hy
+    have : (m1, j1) = (m2, j2) := hnames _ h1 _ h2 (by simpa [childOf] using hxy)
+    cases this; rfl
+
 
 end Pyg.Props.C12
